@@ -1,8 +1,204 @@
-import ColaVerif.Model.DiagTrace
+import ColaVerif.Lemmas.DiagTraceSound
+import ColaVerif.Lemmas.Bridge
+import Mathlib.LinearAlgebra.Matrix.Trace
+
+/-!
+# C08 — exact diag / trace return the true (off-)diagonal and trace (property theorems)
+
+`Op R` : operator expression trees; `A.den` : the represented matrix (specification);
+`Op.diagK D n k` : the `k`-th diagonal of the `n × n` matrix `D` (entries `D t (t+k)` for `k ≥ 0`,
+`D (t-k) t` for `k < 0`, length `n - |k|`); `Op.traceSpec D n` : the sum of the main diagonal;
+`Op.exactDiag bs0 A k` : the code model of the probing loop `exact_diag` (chunks of the identity
+through `Sliced`, `A @ chunk`, shifted chunk, row sums, trimming) with the hard-coded `100` of
+`bs = min(100, n)` as the PARAMETER `bs0`;
+`Op.diagCode bs0 alg A k`, `Op.traceCode bs0 alg A` : the code model of `cola.linalg.diag(A, k, alg)`,
+`cola.linalg.trace(A, alg)` (`alg` ∈ {omitted = `Auto()`, `Exact()`}): rule selection + every
+rule of `cola/linalg/trace/diag_trace.py`; `.error _` = the call refuses.
+
+Hypotheses: `A.wf`, `A.dupSlice = false`, `A.HermOK` (those of C01, `Op.Good`), and the two NAMED
+CLAUSES (recorded defects of cola, witnesses below):
+* `bdiag-nonsquare-block`  (`A.nonsqBlock = false`): the rule recursion reaches no `BlockDiag` with a
+  non-square block;
+* `kron-nonsquare-factor`  (`A.nonsqFactor = false`): it reaches no `Kronecker` with a non-square factor.
+-/
 
 namespace C08
-/-- placeholder while the proofs are being written -/
-theorem C08_stub : (1 : Nat) = 1 := rfl
+open Op
+variable {R : Type} [CommRing R] [StarRing R] [DecidableEq R]
+
+/-- **C08 (exact algorithm).**  For EVERY block-size constant `bs0 > 0` (in particular 100), every
+square operator tree of every size `n` (smaller than, equal to, larger than the block size,
+divisible by it or not) and EVERY offset `k` (in range or not), the probing loop returns exactly
+the `k`-th diagonal of the represented matrix. -/
+theorem C08_exact (bs0 : Nat) (hbs : 0 < bs0) (A : Op R) (hwf : A.wf = true)
+    (hnd : A.dupSlice = false) (hh : A.HermOK) (hsq : A.rows = A.cols) (k : Int) :
+    exactDiag bs0 A k = diagK A.den.f A.rows k :=
+  exactDiag_eq bs0 hbs A ⟨hwf, hnd, hh⟩ hsq k
+
+/-- the result has the correct length `n - |k|` for every offset (empty for `|k| ≥ n`) -/
+theorem C08_exact_length (bs0 : Nat) (hbs : 0 < bs0) (A : Op R) (hwf : A.wf = true)
+    (hnd : A.dupSlice = false) (hh : A.HermOK) (hsq : A.rows = A.cols) (k : Int) :
+    (exactDiag bs0 A k).length = A.rows - k.natAbs := by
+  rw [C08_exact bs0 hbs A hwf hnd hh hsq k, diagK_length]
+
+/-- the entries, for `-n < k < n` -/
+theorem C08_exact_entries (bs0 : Nat) (hbs : 0 < bs0) (A : Op R) (hwf : A.wf = true)
+    (hnd : A.dupSlice = false) (hh : A.HermOK) (hsq : A.rows = A.cols) (k : Int) (t : Nat)
+    (ht : t < A.rows - k.natAbs) :
+    (exactDiag bs0 A k)[t]? =
+      some (if 0 ≤ k then A.den.f t (t + k.toNat) else A.den.f (t + k.natAbs) t) := by
+  rw [C08_exact bs0 hbs A hwf hnd hh hsq k]
+  simp [diagK, ht]
+
+/-- **C08 (the `Auto` decision).**  At the default tolerance `1e-6` the automatic algorithm is
+the exact one for every operator with fewer than `10¹¹` entries
+(`tol < 1/sqrt(10·numel)` ⟺ `10·numel·tol² < 1`). -/
+theorem C08_auto_default (numel : Nat) :
+    autoExact 1 1000000 numel = true ↔ numel < 100000000000 := by
+  simp only [autoExact, decide_eq_true_eq]
+  omega
+
+/-- **C08 (every rule of `diag`).**  With `alg` omitted, `Auto()` or `Exact()`: whenever
+`diag(A, k, alg)` returns an array, it is exactly the `k`-th diagonal of the represented matrix,
+for every square tree over Dense, Triangular, Identity, Diagonal, ScalarMul, Sum, BlockDiag with
+multiplicities, Kronecker, KronSum (any number of members, any nesting), products and all generic
+kinds, every offset, every block-size constant; every other outcome is a refusal. -/
+theorem C08_rules_partial (bs0 : Nat) (hbs : 0 < bs0) (alg : Alg) (A : Op R) (hwf : A.wf = true)
+    (hnd : A.dupSlice = false) (hh : A.HermOK) (hblk : A.nonsqBlock = false)
+    (hfac : A.nonsqFactor = false) (hsq : A.rows = A.cols) (k : Int) (d : List R)
+    (h : diagCode bs0 alg A k = .ok d) : d = diagK A.den.f A.rows k :=
+  diagCode_sound bs0 hbs alg A ⟨hwf, hnd, hh⟩ hblk hfac hsq k d h
+
+/-- length of a returned array -/
+theorem C08_rules_length_partial (bs0 : Nat) (hbs : 0 < bs0) (alg : Alg) (A : Op R)
+    (hwf : A.wf = true) (hnd : A.dupSlice = false) (hh : A.HermOK) (hblk : A.nonsqBlock = false)
+    (hfac : A.nonsqFactor = false) (hsq : A.rows = A.cols) (k : Int) (d : List R)
+    (h : diagCode bs0 alg A k = .ok d) : d.length = A.rows - k.natAbs := by
+  rw [C08_rules_partial bs0 hbs alg A hwf hnd hh hblk hfac hsq k d h, diagK_length]
+
+/-- **C08 (rule vs probing).**  A structural rule returns the same values as the generic probing
+algorithm run on the same operator, or refuses; it never returns different values. -/
+theorem C08_rule_agrees_with_probing_partial (bs0 : Nat) (hbs : 0 < bs0) (alg : Alg) (A : Op R)
+    (hwf : A.wf = true) (hnd : A.dupSlice = false) (hh : A.HermOK) (hblk : A.nonsqBlock = false)
+    (hfac : A.nonsqFactor = false) (hsq : A.rows = A.cols) (k : Int) :
+    diagCode bs0 alg A k = .ok (exactDiag bs0 A k) ∨ ∃ msg, diagCode bs0 alg A k = .error msg := by
+  cases hd : diagCode bs0 alg A k with
+  | error msg => exact Or.inr ⟨msg, rfl⟩
+  | ok d =>
+    left
+    rw [C08_rules_partial bs0 hbs alg A hwf hnd hh hblk hfac hsq k d hd,
+      C08_exact bs0 hbs A hwf hnd hh hsq k]
+
+/-- **C08 (trace).**  Whenever `trace(A, alg)` returns a value, the operator is square and the
+value is the sum of the main diagonal of the represented matrix (the `Kronecker` rule
+`prod(trace(M))` included); every other outcome is a refusal. -/
+theorem C08_trace_partial (bs0 : Nat) (hbs : 0 < bs0) (alg : Alg) (A : Op R) (hwf : A.wf = true)
+    (hnd : A.dupSlice = false) (hh : A.HermOK) (hblk : A.nonsqBlock = false)
+    (hfac : A.nonsqFactor = false) (t : R) (h : traceCode bs0 alg A = .ok t) :
+    A.rows = A.cols ∧ t = traceSpec A.den.f A.rows :=
+  traceCode_sound bs0 hbs alg A ⟨hwf, hnd, hh⟩ hblk hfac t h
+
+omit [DecidableEq R] in
+/-- `trace(M₁ ⊗ … ⊗ M_k) = Π trace(M_i)` for square factors (what the `Kronecker` rule of `trace`
+relies on), as a statement about the represented matrices -/
+theorem C08_trace_kron (Ms : List (Op R)) (hsq : ∀ M ∈ Ms, M.rows = M.cols) :
+    traceSpec (kron Ms).den.f (kron Ms).rows = (Ms.map (fun M => traceSpec M.den.f M.rows)).prod := by
+  rw [kron_trace_list Ms hsq]
+  simp only [rows]
+  rw [traceSpec_eq_sum, traceSpec_eq_sum]
+  congr 1
+  apply List.map_congr_left
+  intro i _
+  rw [den]
+  simp only [forceV_f]
+  rfl
+
+omit [StarRing R] [DecidableEq R] in
+/-- the specification is Mathlib's trace / diagonal of the represented matrix -/
+theorem C08_spec_is_mathlib_trace (D : MatF R) (n : Nat) :
+    traceSpec D n = Matrix.trace (MatF.toMatrix n n D) := by
+  rw [traceSpec, sumTo_eq, Matrix.trace, Finset.sum_range]
+  rfl
+
+omit [CommRing R] [StarRing R] [DecidableEq R] in
+theorem C08_spec_is_mathlib_diag (D : MatF R) (n : Nat) :
+    diagK D n 0 = List.ofFn (Matrix.diag (MatF.toMatrix n n D)) := by
+  apply List.ext_getElem
+  · simp [diagK]
+  · intro t h1 h2
+    simp [diagK, Matrix.diag, MatF.toMatrix]
+
+/-! ## the clauses are needed; the hypotheses are satisfiable -/
+
+/-- **clause `bdiag-nonsquare-block` is needed**: the square `BlockDiag` of the blocks `[1 2]` (1×2)
+and `[3 4]ᵀ` (2×1) represents `[[1,2,0],[0,0,3],[0,0,4]]` with diagonal `[1,0,4]` and trace `5`; the
+rule concatenates the blocks' own diagonals: `diag` returns `[1,3]`, `trace` returns `4`.  All other
+hypotheses hold. -/
+theorem C08_clause_needed_block :
+    let A : Op Int := .bdiag [.dense .f64 1 2 (fun _ j => (j : Int) + 1), .dense .f64 2 1 (fun i _ => (i : Int) + 3)] [1, 1]
+    A.wf = true ∧ A.dupSlice = false ∧ A.HermOK ∧ A.rows = A.cols ∧ A.nonsqFactor = false ∧
+      A.nonsqBlock = true ∧
+      diagCode 100 .auto A 0 = .ok [1, 3] ∧ diagK A.den.f A.rows 0 = [1, 0, 4] ∧
+      traceCode 100 .auto A = .ok 4 ∧ traceSpec A.den.f A.rows = 5 := by
+  refine ⟨?_, ?_, ?_, ?_, ?_, ?_, ?_, ?_, ?_, ?_⟩
+  · simp [Op.wf]
+  · simp [Op.dupSlice]
+  · simp [Op.HermOK, Op.HermNode, Op.isa, Op.anns, AnnSet.isa, AnnSet.interAll, AnnSet.inter]
+  · simp [Op.rows, Op.cols, Op.dotSum]
+  · simp [Op.nonsqFactor]
+  · simp [Op.nonsqBlock, Op.rows, Op.cols]
+  · simp [Op.diagCode, Op.seqE, Op.npDiag, bind, Except.bind, pure, Except.pure, List.range_succ]
+  · simp [Op.diagK, Op.den, Op.rows, Op.cols, Op.dotSum, bdiagDen, expandBlocks, blockDiagM,
+      List.range_succ]
+  · simp [Op.traceCode, Op.diagCode, Op.seqE, Op.npDiag, Op.rows, Op.cols, Op.dotSum, bind,
+      Except.bind, pure, Except.pure, List.range_succ]
+  · simp [Op.traceSpec, sumTo, Op.den, Op.rows, Op.cols, Op.dotSum, bdiagDen, expandBlocks, blockDiagM]
+
+/-- **clause `kron-nonsquare-factor` is needed**: the square Kronecker product of `[1 2]` (1×2) and
+`[3 4]ᵀ` (2×1) represents `[[3,6],[4,8]]` with diagonal `[3,8]`; the rule takes the outer product
+of the factors' own diagonals `[1]`, `[3]` and returns `[3]` (wrong length).  All other
+hypotheses hold. -/
+theorem C08_clause_needed_factor :
+    let A : Op Int := .kron [.dense .f64 1 2 (fun _ j => (j : Int) + 1), .dense .f64 2 1 (fun i _ => (i : Int) + 3)]
+    A.wf = true ∧ A.dupSlice = false ∧ A.HermOK ∧ A.rows = A.cols ∧ A.nonsqBlock = false ∧
+      A.nonsqFactor = true ∧
+      diagCode 100 .auto A 0 = .ok [3] ∧ diagK A.den.f A.rows 0 = [3, 8] := by
+  refine ⟨?_, ?_, ?_, ?_, ?_, ?_, ?_, ?_⟩
+  · simp [Op.wf]
+  · simp [Op.dupSlice]
+  · simp [Op.HermOK, Op.HermNode, Op.isa, Op.anns, AnnSet.isa, AnnSet.interAll, AnnSet.inter]
+  · simp [Op.rows, Op.cols]
+  · simp [Op.nonsqBlock]
+  · simp [Op.nonsqFactor, Op.rows, Op.cols]
+  · simp [Op.diagCode, Op.seqE, Op.npDiag, Op.outerProd, bind, Except.bind, pure, Except.pure,
+      List.range_succ]
+  · simp [Op.diagK, Op.den, Op.rows, Op.cols, kronDen, kronEntry, unravel, List.range_succ]
+
+/-- non-vacuity: a nested square tree with a BlockDiag with multiplicities, a Kronecker product,
+a KronSum, a Sum, a ScalarMul, a product and a generic operator satisfies every hypothesis of the
+partial theorems (`HermOK` is C05's business; here all annotation sets are checked directly). -/
+example :
+    let A : Op Int := .sum [
+      .bdiag [.kron [.dense .f64 2 2 (fun i j => (i : Int) + j), .eye .f64 1], .scalar .f64 3 1] [1, 2],
+      .kronsum [.diag .f64 2 (fun i => (i : Int) + 1), .generic (.prod [.dense .f64 2 2 (fun i j => (i : Int) - j), .dense .f64 2 2 (fun _ _ => 1)])]]
+    A.wf = true ∧ A.dupSlice = false ∧ A.nonsqBlock = false ∧ A.nonsqFactor = false ∧ A.rows = A.cols := by
+  simp [Op.wf, Op.dupSlice, Op.nonsqBlock, Op.nonsqFactor, Op.rows, Op.cols, Op.dotSum, Op.chainOk]
+
 end C08
 
-#print axioms C08.C08_stub
+#print axioms C08.C08_exact
+#print axioms C08.C08_exact_length
+#print axioms C08.C08_exact_entries
+#print axioms C08.C08_auto_default
+#print axioms C08.C08_rules_partial
+#print axioms C08.C08_rules_length_partial
+#print axioms C08.C08_rule_agrees_with_probing_partial
+#print axioms C08.C08_trace_partial
+#print axioms C08.C08_trace_kron
+#print axioms C08.C08_spec_is_mathlib_trace
+#print axioms C08.C08_spec_is_mathlib_diag
+#print axioms C08.C08_clause_needed_block
+#print axioms C08.C08_clause_needed_factor
+#print axioms Op.idCols_eq
+#print axioms Op.chunk_partition
+#print axioms Op.kron_trace_list
